@@ -161,14 +161,19 @@ PROPS = {
     ),
     'C20': dict(
         level='other',
-        functions=[SEQ + 'set_HTMLColorResiduePalette'],
+        functions=[SEQ + 'set_HTMLColorResiduePalette', SEQ + 'get_HTMLColorString'],
         lemmas=[],
         native='c20',
         explanation='proved: set_HTMLColorResiduePalette accepts exactly the dictionaries that give each of the 20 residues one of the 17 colour names (values range over the 17 names and '
                     'representative illegal strings; one missing key per case), stores exactly the given colours, and leaves the palette unchanged on every exceptional exit (frame on raise). '
-                    'NOT under contract: get_HTMLColorString - %-formatting of symbolic strings is outside the executor\'s string model; the bounded native check (random palettes/update series, '
-                    'markup stripped and compared, exact block layout) stands in',
-        assumptions=['rendering (get_HTMLColorString): bounded native check only', 'palette values are drawn from the 17 legal names plus the illegal candidates pink / Red / empty string'],
+                    'get_HTMLColorString is under contract for all sequences of any length: the result is the opening tag, then for residue j (in order, exactly once) a space if j is a multiple of 10, '
+                    'a <br> if j is a multiple of 50, and one span whose colour is the palette entry of the residue and whose content is the residue, then the closing tag, and nothing else '
+                    '(loop invariant with closed-form offsets; %-formatting modelled as concatenation). In that proof every colour NAME is abstracted to one symbol (the palette maps residue a to a '
+                    'colour symbol col(a)); the concrete text is the image of the proved text under col(a) -> palette[a], which is why the level is not "proof": markup stripping on the concrete '
+                    'text is checked natively (random palettes/update series, markup stripped and compared, exact block layout)',
+        assumptions=['rendering proof abstracts each colour name to one symbol; the 17 names contain no markup characters (checked against tables.HTML_COLOURS at import)',
+                     'palette values are drawn from the 17 legal names plus the illegal candidates pink / Red / empty string',
+                     '"%s" formatting of strings is modelled as concatenation of the literal pieces and the arguments'],
         design_ref='2 / C20',
     ),
     'C16': dict(
